@@ -128,10 +128,17 @@ func VfC06_Undo() {
 	if vfChoose("undone.form", 2) == 0 {
 		a.tree["object"] = undone
 	} else {
-		a.tree["object"] = map[string]interface{}{"type": "Like", "id": undone, "actor": vfScalarOrList(l)}
+		// the copy the peer embeds need not be the truth: its actors are chosen independently
+		var claimed []interface{}
+		for i := 0; i < nUndoneActors; i++ {
+			claimed = append(claimed, vfIRI("undone.claimed.actor"))
+		}
+		a.tree["object"] = map[string]interface{}{"type": "Like", "id": undone, "actor": vfScalarOrList(claimed)}
 	}
+	// the undone activity as its origin serves it - or the origin cannot be reached
+	reachable := vfChoose("undone.reachable", 2) == 0
 	w.remote = func(iri string) (interface{}, int) {
-		if iri == undone {
+		if iri == undone && reachable {
 			return vfDoc("Like", "id", undone, "actor", vfScalarOrList(l), "object", vfIRI("undone.object")), 0
 		}
 		return nil, 1
@@ -144,7 +151,12 @@ func VfC06_Undo() {
 	accepted := w.count("app.Undo") > 0
 	if accepted {
 		vfCover("accepted")
+		vfAssert(reachable, "undo-accepted-although-the-undone-activity-could-not-be-verified")
 		vfAssert(covered, "undo-accepted-without-covering-the-undone-actors")
+	}
+	if !reachable {
+		vfCover("unverifiable")
+		vfAssert(err != nil, "unverifiable-undo-not-refused")
 	}
 	if !covered {
 		vfCover("not-covered")
